@@ -747,9 +747,26 @@ def _reject_analysis(prog, f, pred, memo, parm_objs=None, depth=0):
         other = b.succs[1 - si]
         if other is None or f.normal_exit_reachable_from(other):
             continue          # the rejecting side must not be able to return normally
-        for (c, p) in atoms_of(cn, pol):
+        ats = atoms_of(cn, pol)
+        for (c, p) in ats:
             if pred(ctx, c, p) or any(pred(hc, c2, p2) for (hc, c2, p2) in _predicate_helper_atoms(prog, ctx, c, p)):
                 edge_ok[(b.id, si)] = True
+        # an equality spelled as two one-sided outcomes on the same edge:  !(rem > 0) && !(rem < 0)
+        if (b.id, si) not in edge_ok and pred is _pred_granularity:
+            sides = {}
+            for (c, p) in ats:
+                cmp_ = as_comparison(c)
+                if cmp_ is None:
+                    continue
+                l, op, r = cmp_
+                if not p:
+                    op = {"<": ">=", ">=": "<", ">": "<=", "<=": ">", "==": "!=", "!=": "=="}[op]
+                r0 = r.strip_all()
+                if r0.k == "IntegerLiteral" and r0.get("v") == "0" and op in ("<=", ">="):
+                    sides.setdefault(l.strip_all().text(), {})[op] = c
+            for txt, d in sides.items():
+                if "<=" in d and ">=" in d and _pred_granularity(ctx, d["<="], True, as_eq=True):
+                    edge_ok[(b.id, si)] = True
     call_pos = {}
     for n in f.walk():
         if not (n.is_call() and n.callee and n.callee.get("repo")) or n.k in ("CXXConstructExpr", "CXXTemporaryObjectExpr"):
@@ -833,7 +850,7 @@ def _predicate_helper_atoms(prog, ctx, c, pol, depth=0):
     return out
 
 
-def _pred_granularity(ctx, c, pol):
+def _pred_granularity(ctx, c, pol, as_eq=False):
     """(input size) % (object state) == 0 holds on the surviving edge"""
     cmp_ = as_comparison(c)
     if cmp_ is None:
@@ -841,6 +858,8 @@ def _pred_granularity(ctx, c, pol):
     l, op, r = cmp_
     if not pol:
         op = {"==": "!=", "!=": "=="}.get(op, op)
+    if as_eq:
+        op = "=="
     for a, b in ((l, r), (r, l)):
         a0, b0 = a.strip_all(), b.strip_all()
         if a0.k == "DeclRefExpr" and a0.decl and a0.decl.get("k") == "local":
